@@ -6,7 +6,7 @@
    * AddToFile over batches whose Create succeeds loses nothing; the outcome of [finish]. *)
 From Coq Require Import Lia Permutation Sorted.
 From ACH Require Import ValidOut ValidOutFacts.
-From ACH Require Import OffsetsFacts FileCreateAll FileCreateAllFacts ValidOffsets ValidOffsetsFacts.
+From ACH Require Import OffsetsFacts BuildIATFacts FileCreateAll FileCreateAllFacts ValidOffsets ValidOffsetsFacts.
 From ACH Require Import Bytes Fields Flatten FlattenFacts ValidFlatten ValidFlattenFacts FlattenFull.
 Open Scope Z_scope.
 
@@ -524,3 +524,169 @@ Proof.
   exists (apply_hint inp hint), (all_batches (run (apply_hint inp hint))). split; [|split; reflexivity].
   split; [now apply apply_hint_perm|now apply sorted_countb_spec].
 Qed.
+
+(* ------------------------------------------------------------------ files of standard AND IAT batches *)
+
+Lemma zsum_sumZ {X} (f : X -> Z) l : zsum f l = sumZ (map f l).
+Proof. induction l as [|x l IH]; cbn [zsum map sumZ fold_right]; [reflexivity|]. unfold sumZ in IH. now rewrite IH. Qed.
+
+Definition sum_pairs (g : bytes * entry -> Z) (l : list batch) : Z := sumZ (map g (ids l)).
+
+Lemma sum_pairs_cons g b l : sum_pairs g (b :: l) = sumZ (map (fun e => g (b_sig b, e)) (b_entries b)) + sum_pairs g l.
+Proof.
+  unfold sum_pairs, ids. cbn [flat_map]. rewrite map_app, sumZ_app. f_equal. unfold ids_of. now rewrite map_map.
+Qed.
+
+Lemma sum_pairs_perm g l l' : Permutation (ids l) (ids l') -> sum_pairs g l = sum_pairs g l'.
+Proof. intros P. unfold sum_pairs. now apply sumZ_perm, Permutation_map. Qed.
+
+Lemma pair_member_le (g : bytes * entry -> Z) l b :
+  (forall p, In p (ids l) -> 0 <= g p) -> In b l -> sumZ (map (fun e => g (b_sig b, e)) (b_entries b)) <= sum_pairs g l.
+Proof.
+  induction l as [|x l IH]; intros Hg Hb; [destruct Hb|]. rewrite sum_pairs_cons.
+  assert (Hx : 0 <= sumZ (map (fun e => g (b_sig x, e)) (b_entries x))).
+  { apply sumZ_nonneg, Forall_forall. intros z Hz. apply in_map_iff in Hz as (e & <- & He).
+    apply Hg. apply in_ids; [now left|exact He]. }
+  assert (Hl : 0 <= sum_pairs g l).
+  { unfold sum_pairs. apply sumZ_nonneg, Forall_forall. intros z Hz. apply in_map_iff in Hz as (q & <- & Hq).
+    apply Hg. unfold ids in *. cbn [flat_map]. apply in_app_iff. now right. }
+  destruct Hb as [<-|Hb]; [lia|].
+  assert (IH' : sumZ (map (fun e => g (b_sig b, e)) (b_entries b)) <= sum_pairs g l).
+  { apply IH; [|exact Hb]. intros q Hq. apply Hg. unfold ids in *. cbn [flat_map]. apply in_app_iff. now right. }
+  lia.
+Qed.
+
+(* IATBatch.build goes through when every entry passes its three error returns *)
+Lemma iat_loop_ok odfi o es : forall s,
+  Forall (fun e => BuildIAT.incl_ok e = true /\ BuildIAT.ie_tr_num e = true) es ->
+  exists es', BuildIAT.iat_loop true odfi o s es = (true, es').
+Proof.
+  induction es as [|e r IH]; intros s H; cbn [BuildIAT.iat_loop]; [now exists []|].
+  inversion H as [|? ? (H1 & H2) Hr]; subst. rewrite H1, H2. cbn [negb].
+  destruct (IH (s + 1) Hr) as (r' & ->). eexists. reflexivity.
+Qed.
+
+Section Mixed.
+Variables (A : Arith.tables) (T : Offsets.otable) (TT : BuildIAT.ttable).
+Hypothesis HA : agree A T.
+Variables (hd : bytes -> hdrp) (sp : bytes -> stdp) (ip : bytes -> ipay) (ap : bytes -> apay).
+(* the kind that goes with a header signature (the SEC code, columns 51-53, is IAT exactly for
+   IATBatch headers: C12_signature_layout) *)
+Variable kiat : bytes -> bool.
+
+Local Notation toe := (to_off_entry sp).
+Local Notation toi := (to_iat_entry ip).
+Local Notation fb := (f_batch A (hp_of hd) (fp_of sp)).
+Local Notation fe := (f_entry (fp_of sp)).
+Local Notation pok := (pair_ok A (hp_of hd) (fp_of sp)).
+
+(* what one entry contributes to its batch control, by the kind of its header *)
+Definition cnt_p (p : bytes * entry) : Z := if kiat (fst p) then BuildIAT.icount_one (toi (snd p)) else cnt_e (snd p).
+Definition cr_p (p : bytes * entry) : Z := if kiat (fst p) then BuildIAT.icr_amt TT (toi (snd p)) else cr_e T sp (snd p).
+Definition db_p (p : bytes * entry) : Z := if kiat (fst p) then BuildIAT.idb_amt TT (toi (snd p)) else db_e T sp (snd p).
+
+Definition kind_sig (b : batch) : Prop :=
+  (b_kind b = Flatten.KStd /\ kiat (b_sig b) = false) \/ (b_kind b = Flatten.KIAT /\ kiat (b_sig b) = true).
+
+Definition created_s (x : batch) : Prop := created A T hd sp x /\ kiat (b_sig x) = false.
+
+(* an IAT consolidated batch whose Create succeeds as C05's iat_build says; the control is the
+   tabulation of the caller's entries *)
+Definition created_i (x : batch) : Prop :=
+  b_kind x = Flatten.KIAT /\ kiat (b_sig x) = true /\
+  exists b', create_iat TT hd ip x = Some b'
+    /\ Offsets.c_count (BuildIAT.ib_ctl b') = BuildIAT.icount (map toi (b_entries x))
+    /\ Offsets.c_credit (BuildIAT.ib_ctl b') = BuildIAT.icredits TT (map toi (b_entries x))
+    /\ Offsets.c_debit (BuildIAT.ib_ctl b') = BuildIAT.idebits TT (map toi (b_entries x)).
+
+Lemma create_iat_spec x :
+  hd_ok (hd (b_sig x)) = true -> hd_odfi_num (hd (b_sig x)) = true -> b_entries x <> [] ->
+  Forall (fun e => BuildIAT.incl_ok (toi e) = true /\ ip_tr_num (ip (e_core e)) = true) (b_entries x) ->
+  category_ok x = true ->
+  exists b', create_iat TT hd ip x = Some b'
+    /\ Offsets.c_count (BuildIAT.ib_ctl b') = BuildIAT.icount (map toi (b_entries x))
+    /\ Offsets.c_credit (BuildIAT.ib_ctl b') = BuildIAT.icredits TT (map toi (b_entries x))
+    /\ Offsets.c_debit (BuildIAT.ib_ctl b') = BuildIAT.idebits TT (map toi (b_entries x)).
+Proof.
+  intros Hok Hnum Hne Hes Hc.
+  assert (Hes' : Forall (fun e => BuildIAT.incl_ok e = true /\ BuildIAT.ie_tr_num e = true) (map toi (b_entries x))).
+  { apply Forall_forall. intros y Hy. apply in_map_iff in Hy as (e & <- & He). rewrite Forall_forall in Hes.
+    destruct (Hes e He) as (H1 & H2). split; [exact H1|exact H2]. }
+  destruct (iat_loop_ok (hd_odfi_z (hd (b_sig x))) None (map toi (b_entries x)) 1 Hes') as (es' & Hl).
+  pose proof (iat_loop_static _ _ _ _ _ _ _ Hl) as Hst.
+  destruct (static_sums TT _ _ Hst) as (S1 & _ & S3 & S4).
+  unfold create_iat, BuildIAT.iat_build, to_iat.
+  cbn [BuildIAT.ib_hdr_ok BuildIAT.ib_entries BuildIAT.ib_odfi_num BuildIAT.ib_odfi BuildIAT.ib_opts].
+  rewrite Hok, Hnum. cbn [negb].
+  destruct (map toi (b_entries x)) as [|e0 r0] eqn:Em; [apply map_eq_nil in Em; congruence|]. rewrite <- Em in *.
+  rewrite Hl, (is_category_iat_ok x Hne), Hc.
+  eexists. split; [reflexivity|]. unfold BuildIAT.ib_with, BuildIAT.ictl_of.
+  cbn [BuildIAT.ib_ctl Offsets.c_count Offsets.c_credit Offsets.c_debit]. repeat split; assumption.
+Qed.
+
+(* AddToFile over standard and IAT batches whose Create succeeds *)
+Lemma add_all_mixed l : Forall (fun x => created_s x \/ created_i x) l ->
+  exists ss ibs, add_all A T TT hd sp ip ap l = (ss, ibs)
+    /\ (length ss + length ibs = length l)%nat /\ existsb sb_is_adv ss = false
+    /\ zsum (fun s => Offsets.c_count (sb_ctl s)) ss + zsum (fun b => Offsets.c_count (BuildIAT.ib_ctl b)) ibs = sum_pairs cnt_p l
+    /\ zsum (fun s => Offsets.c_credit (sb_ctl s)) ss + zsum (fun b => Offsets.c_credit (BuildIAT.ib_ctl b)) ibs = sum_pairs cr_p l
+    /\ zsum (fun s => Offsets.c_debit (sb_ctl s)) ss + zsum (fun b => Offsets.c_debit (BuildIAT.ib_ctl b)) ibs = sum_pairs db_p l.
+Proof.
+  induction 1 as [|x l Hx _ IH].
+  - exists [], []. cbn. repeat split; reflexivity.
+  - destruct IH as (ss & ibs & Hss & Hlen & Hna & S1 & S2 & S3).
+    destruct Hx as [((Hk & Hadv & b' & Hc & (K1 & K2 & K3 & K4 & _) & He & _) & Hki)|(Hk & Hki & b' & Hc & K1 & K3 & K4)].
+    + exists (SStd (std_hdr0 b') :: ss), ibs. cbn [add_all]. rewrite Hss, Hk, Hadv, Hc.
+      split; [reflexivity|]. split; [cbn [length]; lia|]. split; [cbn [existsb sb_is_adv orb]; exact Hna|].
+      rewrite !sum_pairs_cons. cbn [zsum sb_ctl std_hdr0 Offsets.b_ctl].
+      rewrite (map_ext (fun e => cnt_p (b_sig x, e)) cnt_e) by (intros e; unfold cnt_p; cbn [fst snd]; now rewrite Hki).
+      rewrite (map_ext (fun e => cr_p (b_sig x, e)) (cr_e T sp)) by (intros e; unfold cr_p; cbn [fst snd]; now rewrite Hki).
+      rewrite (map_ext (fun e => db_p (b_sig x, e)) (db_e T sp)) by (intros e; unfold db_p; cbn [fst snd]; now rewrite Hki).
+      rewrite K1, K3, K4, He, (count_sum sp), (credits_sum T sp), (debits_sum T sp). repeat split; lia.
+    + exists ss, (iat_hdr0 b' :: ibs). cbn [add_all]. rewrite Hss, Hk, Hc.
+      split; [reflexivity|]. split; [cbn [length]; lia|]. split; [exact Hna|].
+      rewrite !sum_pairs_cons. cbn [zsum iat_hdr0 BuildIAT.ib_ctl].
+      rewrite (map_ext (fun e => cnt_p (b_sig x, e)) (fun e => BuildIAT.icount_one (toi e))) by (intros e; unfold cnt_p; cbn [fst snd]; now rewrite Hki).
+      rewrite (map_ext (fun e => cr_p (b_sig x, e)) (fun e => BuildIAT.icr_amt TT (toi e))) by (intros e; unfold cr_p; cbn [fst snd]; now rewrite Hki).
+      rewrite (map_ext (fun e => db_p (b_sig x, e)) (fun e => BuildIAT.idb_amt TT (toi e))) by (intros e; unfold db_p; cbn [fst snd]; now rewrite Hki).
+      rewrite K1, K3, K4. unfold BuildIAT.icount, BuildIAT.icredits, BuildIAT.idebits.
+      rewrite (zsum_sumZ BuildIAT.icount_one), (zsum_sumZ (BuildIAT.icr_amt TT)), (zsum_sumZ (BuildIAT.idb_amt TT)), !map_map. repeat split; lia.
+Qed.
+
+Theorem finish_mixed inf all :
+  i_hdr_ok inf = true -> all <> [] -> Forall (fun x => created_s x \/ created_i x) (pre all) ->
+  i_count inf = sum_pairs cnt_p all -> i_debit inf = sum_pairs db_p all -> i_credit inf = sum_pairs cr_p all ->
+  let r := finish A T TT hd sp ip ap inf all in
+  (fst r = FOk \/ (fst r = FErrValidate /\ file_ctl_ok A (snd r) = false))
+  /\ (length (af_std (snd r)) + length (af_iat (snd r)) = length all)%nat
+  /\ Offsets.fc_count (af_ctl (snd r)) = i_count inf
+  /\ Offsets.fc_debit (af_ctl (snd r)) = i_debit inf
+  /\ Offsets.fc_credit (af_ctl (snd r)) = i_credit inf.
+Proof.
+  intros Hh Hne Hc E1 E2 E3. cbv zeta. unfold finish. fold (pre all).
+  destruct (add_all_mixed (pre all) Hc) as (ss & ibs & Hss & Hlen & Hna & S1 & S2 & S3). rewrite Hss.
+  assert (Hlen' : (length ss + length ibs = length all)%nat).
+  { rewrite Hlen. unfold pre. rewrite map_length. apply Permutation_length, sort_by_perm. }
+  set (f0 := mkaf (i_hdr_ok inf) (mkfo false false false) ss ibs zero_fctl zero_fctl).
+  assert (Hf : file_create_all TT f0 = (true, created_std TT f0)).
+  { unfold file_create_all, created_std, f0. cbn [af_opts fo_skip_all fo_allow_missing_hdr fo_allow_zero af_hdr_ok af_std af_iat negb andb].
+    rewrite Hh. cbn [negb andb].
+    assert (Hnn : (match ss with [] => true | _ :: _ => false end && match ibs with [] => true | _ :: _ => false end) = false).
+    { destruct ss, ibs; try reflexivity. cbn [length] in Hlen'. destruct all; [congruence|discriminate]. }
+    rewrite Hnn. unfold file_is_adv. cbn [af_std]. rewrite Hna. cbn [negb]. now rewrite file_control_renumber. }
+  assert (Q1 : zsum (fun s => Offsets.c_count (sb_ctl s)) ss + zsum (fun b => Offsets.c_count (BuildIAT.ib_ctl b)) ibs = i_count inf)
+    by (rewrite S1, (sum_pairs_perm _ _ _ (pre_ids all)); now symmetry).
+  assert (Q2 : zsum (fun s => Offsets.c_debit (sb_ctl s)) ss + zsum (fun b => Offsets.c_debit (BuildIAT.ib_ctl b)) ibs = i_debit inf)
+    by (rewrite S3, (sum_pairs_perm _ _ _ (pre_ids all)); now symmetry).
+  assert (Q3 : zsum (fun s => Offsets.c_credit (sb_ctl s)) ss + zsum (fun b => Offsets.c_credit (BuildIAT.ib_ctl b)) ibs = i_credit inf)
+    by (rewrite S2, (sum_pairs_perm _ _ _ (pre_ids all)); now symmetry).
+  rewrite Hf. unfold created_std, f0, af_with.
+  cbn [af_std af_iat af_ctl af_actl file_control_all Offsets.fc_count Offsets.fc_debit Offsets.fc_credit].
+  rewrite Q1, Q2, Q3, !Z.eqb_refl. cbn [negb].
+  match goal with |- context [file_ctl_ok A ?f] => destruct (file_ctl_ok A f) eqn:Ev end; cbn [negb fst snd af_std af_iat af_ctl].
+  all: (split; [first [now left | right; split; [reflexivity|exact Ev]]|]).
+  all: rewrite renumber_s_length, renumber_i_length; repeat split; try assumption.
+  all: unfold file_control_all; cbn [Offsets.fc_count Offsets.fc_debit Offsets.fc_credit]; assumption.
+Qed.
+
+End Mixed.
